@@ -44,9 +44,14 @@ def classify(rep):
 
 
 def signature(rep):
-    funcs = re.findall(r"^\s{2}(\S+\(.*?\)|\S+)\n\s+/\S+\.go", rep, re.M)
-    funcs = [re.sub(r"\(.*", "", f) for f in funcs]
-    return " | ".join(funcs[:2] + funcs[-2:])[:300]
+    """Stack-pair signature with line numbers stripped: top frames of both accesses."""
+    tops = []
+    for part in re.split(r"\n\s*\n", rep):
+        if part.lstrip().startswith(("Write at", "Read at", "Previous write at", "Previous read at", "WARNING: DATA RACE")):
+            fr = re.findall(r"^\s{2}([^\s/][^\n]*?)\(\)?\n\s+/\S+\.go:\d+", part, re.M)
+            fr = [f for f in fr if not f.startswith("runtime.")]
+            tops.append(" <- ".join(fr[:3]))
+    return " || ".join(t for t in tops if t)[:400]
 
 
 def run(prop, tier, seed, replay=None):
